@@ -75,6 +75,13 @@ def cases(tier, seed):
         for so in subsets[:-1]:
             for pm in ("nonparametric", "gaussian"):
                 out.append({"env": {"APP_ENV": env}, "kind": "cli", "save_output": so, "pm": pm, "seed": seed})
+    # the historical client (replays an earlier election through the estimate run) with nothing, or only the calibration
+    # data of an estimator that has none, requested
+    for env in ("local", "dev"):
+        for pm in ("nonparametric", "gaussian"):
+            for so in ([], ["conformalization"] if pm == "nonparametric" else []):
+                for gate in ("passes", "fails"):
+                    out.append({"env": {"APP_ENV": env}, "kind": "historical", "save_output": so, "pm": pm, "gate": gate, "seed": seed})
     # histories: two estimate runs in one process, on fresh clients, with the parameter argument omitted (library default)
     # or one dictionary reused by the caller; the second run must persist exactly what *it* was asked to
     seq_opts = [[], ["conformalization"], ["results"], ["results", "conformalization"]]
@@ -242,6 +249,66 @@ def _sequence(case):
     return {"violations": V, "cov": dict(cov), "outcome": sha([v["sig"] for v in V]), "nontrivial": True, "transitions": len(case["setups"])}
 
 
+def _historical(case):
+    """The historical client (replays an earlier election through get_estimates) with nothing requested: nothing is written."""
+    import json
+
+    from elexmodel.client import HistoricalModelClient
+
+    from . import c10, c12
+
+    cov = Counter()
+    V = []
+    env = case["env"]["APP_ENV"]
+    units = c12.election(case["seed"])
+    if case["gate"] == "fails":
+        for u in units[3:]:
+            u["pev"] = 0.0
+    cfg = E.make_cfg(estimands=["turnout"], pi_method=case["pm"], alphas=[0.7])
+    rc = E.raw_config(cfg)
+    rc[E.ELECTION_ID][0]["historical_election"] = [c10.HIST_ID]
+    hist_cfg = {c10.HIST_ID: [dict(rc[E.ELECTION_ID][0], historical_election=[])]}
+    baseline, feed = E.frames(units, cfg)
+    df = baseline.copy()
+    df["results_turnout"] = (df.baseline_turnout * 1.1).astype(int)
+    df["results_dem"] = (df.baseline_dem * 1.2).astype(int)
+    df["results_gop"] = (df.baseline_gop * 0.9).astype(int)
+    scratch = tempfile.mkdtemp(prefix="mc_c18_")
+    cwd0 = os.getcwd()
+    del fakes.S3_LOG[:]
+    err = None
+    try:
+        os.chdir(scratch)
+        os.makedirs("config")
+        os.makedirs(f"data/{c10.HIST_ID}/G")
+        json.dump(rc, open(f"config/{E.ELECTION_ID}.json", "w"))
+        json.dump(hist_cfg, open(f"config/{c10.HIST_ID}.json", "w"))
+        df.to_csv(f"data/{c10.HIST_ID}/G/data_precinct.csv", index=False)
+        before = sorted(os.path.relpath(os.path.join(d, f), scratch) for d, _, fs in os.walk(scratch) for f in fs)
+        try:
+            HistoricalModelClient().get_historical_evaluation(
+                feed[feed.geographic_unit_fips.isin(baseline.geographic_unit_fips)], E.ELECTION_ID, "G", ["turnout"], [0.7], 100, "precinct",
+                aggregates=["postal_code", "county_fips"], pi_method=case["pm"], save_output=list(case["save_output"]), features=[],
+                model_parameters={"fit_margin_outlier_model": False, "fit_turnout_outlier_model": False},
+            )
+        except Exception as e:
+            err = type(e).__name__
+        after = sorted(os.path.relpath(os.path.join(d, f), scratch) for d, _, fs in os.walk(scratch) for f in fs)
+    finally:
+        os.chdir(cwd0)
+        shutil.rmtree(scratch, ignore_errors=True)
+    keys = sorted(re.sub(r"\s+", "", r["Key"] or "") for r in fakes.S3_LOG if r["op"] == "put_object")
+    del fakes.S3_LOG[:]
+    ctx = f"env={env} historical evaluation {case['pm']} save_output={case['save_output']} gate={case['gate']} (ended with {err or 'tables'})"
+    if keys:
+        V.append({"sig": "C18:nothing-requested-but-written", "msg": f"{ctx}: remote writes {keys}"})
+    if after != before:
+        V.append({"sig": "C18:local-files", "msg": f"{ctx}: local files created {sorted(set(after) - set(before))}"})
+    cov["historical_client_runs"] += 1
+    cov["historical_client_runs_" + ("raised" if err else "completed")] += 1
+    return {"violations": V, "cov": dict(cov), "outcome": sha([keys, after, err])[:16], "nontrivial": True}
+
+
 def evaluate(case):
     """Every case runs in a child forked from the (never used, hence pristine) worker: persistence must not depend on what
     an earlier case left behind in the process (module state, mutable defaults), and a history must start from the
@@ -280,6 +347,8 @@ def _evaluate(case):
         return _sequence(case)
     if case.get("kind") == "cli":
         return _cli(case)
+    if case.get("kind") == "historical":
+        return _historical(case)
     cov = Counter()
     V = []
     env = case["env"]["APP_ENV"]
